@@ -9,11 +9,13 @@
    loopback TCP, alone or inside a real Client.Connect session (which write the kernel
    refuses is observed); 2 the real XMPPTransport over a scripted net.Conn (the model
    finds the failing write in the script itself and lists every conn.Write / conn.Close).
-   Where a real receive loop shares the quit channel ([k_end] <> 0) quit is closed iff the
-   receive-loop model (Model/Recv.v) says so for the way the session ended. *)
+   Where a real receive loop shares the quit channel ([k_end] <> 0) it closes quit whichever way the
+   session ends, and reports what [session_report] says (tied to Model/Recv.v by
+   C18_session_report_is_recv / C18_session_end_closes_quit).  A ping that was under way when the
+   session ended ([k_late]) is not answered by Close; one the harness held past the poll until the
+   session was over appears after the "session over" marker. *)
 From Coq Require Import List ZArith NArith Bool.
 From XV Require Import Lib.Sx Model.Keepalive.
-From XV Require Model.Recv.
 Import ListNotations.
 Open Scope Z_scope.
 
@@ -31,7 +33,13 @@ Record kinput := {
                             fails once the connection is gone; 2 a receive loop that is handed the
                             server's closing tag; 3 a receive loop that is handed a stream error and
                             whose read then fails; 4 a stream error whose handler reconnects *)
-  k_client : bool        (* the loop was started by a Client built by NewClient (interval defaulted) *)
+  k_client : bool;       (* the loop was started by a Client built by NewClient (interval defaulted) *)
+  k_late : Z             (* 0: quit was open when the loop looked again after its last ping;
+                            1: it was closed by then (the ping was under way when the session ended);
+                            2: the same, and the harness held that ping until the session was known to be
+                               over: it is observed AFTER the "session over" marker.
+                            With k_term = 1 the late ping is the failing one, with k_term = 0 it is one more
+                            successful ping *)
 }.
 
 Definition dec_sel (x : sx) : option sel :=
@@ -49,12 +57,13 @@ Definition dec_wres (x : sx) : option wres :=
 
 Definition dec_input (x : sx) : option kinput :=
   match x with
-  | SL [iv; term; failat; nsucc; suffix; mode; lossy; srvn; script; en; cl] =>
+  | SL [iv; term; failat; nsucc; suffix; mode; lossy; srvn; script; en; cl; late] =>
       do i <- as_z iv; do t <- as_z term; do f <- as_nat failat; do n <- as_nat nsucc;
       do s <- as_list dec_sel suffix; do c <- as_z mode; do l <- as_b lossy; do r <- as_nat srvn;
-      do w <- as_list dec_wres script; do e <- as_z en; do k <- as_b cl;
+      do w <- as_list dec_wres script; do e <- as_z en; do k <- as_b cl; do la <- as_z late;
       Some {| k_interval := i; k_term := t; k_failat := f; k_nsucc := n; k_suffix := s;
-              k_mode := c; k_lossy := l; k_srvn := r; k_script := w; k_end := e; k_client := k |}
+              k_mode := c; k_lossy := l; k_srvn := r; k_script := w; k_end := e; k_client := k;
+              k_late := la |}
   | _ => None
   end.
 
@@ -64,7 +73,7 @@ Definition act_sx (a : act) : list sx :=
   | APingFail => [SZ 1]
   | AClose => [SZ 2]
   | ATickerStop => []          (* not observable from outside *)
-  | AReturn => [SZ 3]
+  | AReturn => []              (* rendered as the marker, see run_typed *)
   | APanic => []               (* interval <= 0 is outside the property: what the code does there is not compared *)
   end.
 
@@ -77,22 +86,20 @@ Definition cact_sx (c : cact) : sx :=
   end.
 
 (* the receive loop sharing the quit channel, for the way the session ended *)
-Definition recv_trace (i : kinput) : list Recv.action :=
-  if k_end i =? 1 then Recv.crecv 0 0 None []
-  else if k_end i =? 2 then Recv.crecv 0 0 None [Recv.IClose]
-  else if k_end i =? 3 then Recv.crecv 0 0 None [Recv.IStreamError 0]
-  else if k_end i =? 4
-  then (* a stream error whose event handler reconnected the client itself: the loop leaves the
-          transport to the new session and returns, no Disconnected event *)
-       [Recv.AQuit; Recv.AEvStreamError; Recv.AErrCall]
-  else [].
+Definition end_of (i : kinput) : session_end :=
+  if k_end i =? 1 then SeReadFails else if k_end i =? 2 then SeStreamClose
+  else if k_end i =? 3 then SeStreamError else if k_end i =? 4 then SeHandedOver else SeNone.
 
-Definition schedule (i : kinput) : list sel :=
-  let quit_closed :=
-    if k_end i =? 0 then true else existsb Recv.is_quit (recv_trace i) in
-  repeat STick (k_nsucc i)
-  ++ (if k_term i =? 1 then [STick]
-      else if (k_term i =? 0) && quit_closed then [SQuit] else [])
+(* the schedule in two parts: what the loop did while the session was up / from the moment the
+   session was known to be over (only a ping the harness held past the poll, then quit) *)
+Definition last_tick (i : kinput) : list sel :=
+  if k_term i =? 1 then [if k_late i =? 0 then STick else STickLate]
+  else if k_late i =? 0 then [] else [STickLate].
+Definition sched_up (i : kinput) : list sel :=
+  repeat STick (k_nsucc i) ++ (if k_late i =? 2 then [] else last_tick i).
+Definition sched_over (i : kinput) : list sel :=
+  (if k_late i =? 2 then last_tick i else [])
+  ++ (if k_term i =? 0 then [SQuit] else [])   (* every way a session ends closes quit *)
   ++ k_suffix i.
 
 Definition fail_oracle (i : kinput) : nat -> bool :=
@@ -105,7 +112,15 @@ Definition fail_oracle (i : kinput) : nat -> bool :=
 
 Definition run_typed (i : kinput) : sx :=
   let iv := if k_client i then client_interval (k_interval i) else k_interval i in
-  let tr := keepalive iv (fail_oracle i) (schedule i) in
+  let fl := fail_oracle i in
+  let ra := ka_run fl (Running 0) (sched_up i) in
+  let tr_up := snd ra in
+  let tr_over := snd (ka_run fl (fst ra) (sched_over i)) in
+  let tr := if iv <=? 0 then [] else tr_up ++ tr_over in   (* interval <= 0: outside the property, not compared *)
+  (* the log: what happened while the session was up, the marker (session over / loop returned), the rest *)
+  let events :=
+    if iv <=? 0 then []
+    else flat_map act_sx tr_up ++ (if existsb is_return tr then [SZ 3] else []) ++ flat_map act_sx tr_over in
   let w := wire tr in
   let wire_sx :=
     (* number of keep-alives the server read in the XML stream, and whether it read only white space *)
@@ -117,17 +132,17 @@ Definition run_typed (i : kinput) : sx :=
          else (* connection healthy: every successful ping arrives *)
               SL [Snat (count (fun a => match a with APingOk => true | _ => false end) tr);
                   SB (forallb xml_ws w)] in
-  (* mode 2: everything done to the connection; the closing tag's write fails iff the
-     connection is dead for writing, the model does not care *)
-  let ct := if k_mode i =? 2 then conn_trace (WErr 0) tr else [] in
+  (* mode 2: everything done to the connection *)
+  let ct := if k_mode i =? 2 then conn_trace tr else [] in
   (* how the loss is reported by the receive loop: mode 2, the read only fails once the
-     keep-alive loop has closed the connection; mode 1, the session was ended from outside *)
-  let rt := if (k_mode i =? 2) && negb (Nat.ltb 0 (count is_connclose ct)) then [] else recv_trace i in
-  SL [SL (flat_map act_sx tr); wire_sx; SL (map cact_sx ct);
-      SL [Snat (Recv.count_act Recv.is_err rt); Snat (Recv.count_act Recv.is_disc rt)]].
+     keep-alive loop has closed the connection; otherwise the session was ended from outside *)
+  let rp := if (k_mode i =? 2) && negb (Nat.ltb 0 (count is_connclose ct)) then (0%nat, 0%nat)
+            else session_report (end_of i) in
+  SL [SL events; wire_sx; SL (map cact_sx ct); SL [Snat (fst rp); Snat (snd rp)]].
 
-(* a history of Resume attempts on ONE client object, each with the description of the loop it
-   would run: only the attempts the model says start a loop contribute an observation *)
+(* a history of Connect / Resume attempts on ONE client object, each with the description of the loop
+   it would run: only the attempts the model says start a loop contribute an observation; and for each
+   attempt whether it leaves a session up behind it *)
 Definition dec_attempt (x : sx) : option (attempt * kinput) :=
   match x with
   | SL [SZ a; inp] =>
@@ -141,10 +156,11 @@ Definition run_C18 (x : sx) : sx :=
   | SL [SZ 99; SL atts] =>
       match omap dec_attempt atts with
       | Some l =>
-          SL (flat_map (fun ai => match loops_started (fst ai) with
-                                  | O => []
-                                  | S _ => [run_typed (snd ai)]
-                                  end) l)
+          SL [SL (flat_map (fun ai => match loops_started (fst ai) with
+                                      | O => []
+                                      | S _ => [run_typed (snd ai)]
+                                      end) l);
+              SL (map (fun ai => SB (attempt_leaves_session (fst ai))) l)]
       | None => decode_error
       end
   | _ => with_input dec_input run_typed x
